@@ -1,5 +1,6 @@
 /- C19 — printing an AST and re-parsing it is the identity: the string-literal part. Property theorems. -/
 import BoaVerif.C19.Model
+import BoaVerif.C19.Prec
 namespace BoaVerif.C19
 
 theorem hexUp_roundtrip : ∀ d, d < 16 → hexVal (hexUp d) = some d := by decide
@@ -108,3 +109,345 @@ example : lexStrBody 100 (escBody false [0x61, 0x22, 0x5C, 0x0A, 0x2028, 0xD800,
     = some ([0x61, 0x22, 0x5C, 0x0A, 0x2028, 0xD800, 0x00, 0xD83D, 0xDE00], [0x3B]) := by decide
 
 end BoaVerif.C19
+
+-- ------------------------------------------------------------------ precedence, parentheses and the parse/print pair
+namespace BoaVerif.C19.Prec
+
+def need : E → Nat
+  | .num _ => 4
+  | .neg e => need e + 1
+  | .paren e => need e + 4
+  | .bin _ l r => need l + need r + 5
+
+def c1 : E → Nat
+  | .bin o l _ => if o.prec = 1 then c1 l + 1 else 0
+  | _ => 0
+def c0 : E → Nat
+  | .bin o l _ => if o.prec = 0 then c0 l + 1 else 0
+  | _ => 0
+
+theorem need_ge (e : E) : 4 ≤ need e := by
+  induction e with
+  | num n => simp [need]
+  | neg e ih => simp only [need]; omega
+  | paren e ih => simp only [need]; omega
+  | bin o l r ihl ihr => simp only [need]; omega
+
+theorem c1_le (e : E) : c1 e + 3 ≤ need e := by
+  induction e with
+  | bin o l r ihl _ => simp only [c1, need]; split <;> omega
+  | num n => simp [c1, need]
+  | neg e _ => have := need_ge e; simp [c1, need]; omega
+  | paren e _ => simp [c1, need]
+theorem c0_le (e : E) : c0 e + 3 ≤ need e := by
+  induction e with
+  | bin o l r ihl _ => simp only [c0, need]; split <;> omega
+  | num n => simp [c0, need]
+  | neg e _ => have := need_ge e; simp [c0, need]; omega
+  | paren e _ => simp [c0, need]
+
+def stop1 (rest : List Tok) : Prop := ∀ r, rest ≠ .op .mul :: r ∧ rest ≠ .op .div :: r
+def stop0 (rest : List Tok) : Prop := stop1 rest ∧ ∀ r, rest ≠ .op .add :: r ∧ rest ≠ .op .sub :: r
+
+theorem mulLoop_stop (f : Nat) (acc : E) (rest : List Tok) (h : stop1 rest) : mulLoop (f + 1) acc rest = some (acc, rest) := by
+  match rest with
+  | [] => simp [mulLoop]
+  | .num _ :: _ => simp [mulLoop]
+  | .lp :: _ => simp [mulLoop]
+  | .rp :: _ => simp [mulLoop]
+  | .op .add :: _ => simp [mulLoop]
+  | .op .sub :: _ => simp [mulLoop]
+  | .op .mul :: r => exact absurd rfl (h r).1
+  | .op .div :: r => exact absurd rfl (h r).2
+
+theorem addLoop_stop (f : Nat) (acc : E) (rest : List Tok) (h : stop0 rest) : addLoop (f + 1) acc rest = some (acc, rest) := by
+  match rest with
+  | [] => simp [addLoop]
+  | .num _ :: _ => simp [addLoop]
+  | .lp :: _ => simp [addLoop]
+  | .rp :: _ => simp [addLoop]
+  | .op .mul :: _ => simp [addLoop]
+  | .op .div :: _ => simp [addLoop]
+  | .op .add :: r => exact absurd rfl (h.2 r).1
+  | .op .sub :: r => exact absurd rfl (h.2 r).2
+
+structure Good (e : E) : Prop where
+  atom : e.level = 3 → ∀ f rest, need e ≤ f + 3 → parseAtom f (pr e ++ rest) = some (e, rest)
+  un : 2 ≤ e.level → ∀ f rest, need e ≤ f + 2 → parseUn f (pr e ++ rest) = some (e, rest)
+  mul : 1 ≤ e.level → ∀ f rest, need e ≤ f + 1 → parseMul f (pr e ++ rest) = mulLoop (f - 1 - c1 e) e rest
+  add : ∀ f rest, stop1 rest → need e ≤ f → parseAdd f (pr e ++ rest) = addLoop (f - 1 - c0 e) e rest
+
+theorem parseMul_done {e : E} (g : Good e) (h1 : 1 ≤ e.level) (f : Nat) (rest : List Tok) (hs : stop1 rest) (hf : need e ≤ f + 1) :
+    parseMul f (pr e ++ rest) = some (e, rest) := by
+  rw [g.mul h1 f rest hf]
+  have := c1_le e
+  obtain ⟨k, hk⟩ : ∃ k, f - 1 - c1 e = k + 1 := ⟨f - 1 - c1 e - 1, by omega⟩
+  rw [hk]; exact mulLoop_stop k e rest hs
+
+theorem parseAdd_done {e : E} (g : Good e) (f : Nat) (rest : List Tok) (hs : stop0 rest) (hf : need e ≤ f) :
+    parseAdd f (pr e ++ rest) = some (e, rest) := by
+  rw [g.add f rest hs.1 hf]
+  have := c0_le e
+  obtain ⟨k, hk⟩ : ∃ k, f - 1 - c0 e = k + 1 := ⟨f - 1 - c0 e - 1, by omega⟩
+  rw [hk]; exact addLoop_stop k e rest hs
+
+theorem stop0_rp (r : List Tok) : stop0 (.rp :: r) :=
+  ⟨fun _ => ⟨by simp, by simp⟩, fun _ => ⟨by simp, by simp⟩⟩
+theorem stop1_addop (o : Op) (h : o.prec = 0) (r : List Tok) : stop1 (.op o :: r) := by
+  intro r2; cases o <;> simp_all [Op.prec]
+
+/-- a unary-level expression is parsed by the multiplicative and additive parsers as a chain of length one -/
+theorem lift_un {e : E} (hlev : 2 ≤ e.level) (hc1 : c1 e = 0) (hc0 : c0 e = 0)
+    (hun : ∀ f rest, need e ≤ f + 2 → parseUn f (pr e ++ rest) = some (e, rest)) :
+    (∀ f rest, need e ≤ f + 1 → parseMul f (pr e ++ rest) = mulLoop (f - 1 - c1 e) e rest) ∧
+    (∀ f rest, stop1 rest → need e ≤ f → parseAdd f (pr e ++ rest) = addLoop (f - 1 - c0 e) e rest) := by
+  have hm : ∀ f rest, need e ≤ f + 1 → parseMul f (pr e ++ rest) = mulLoop (f - 1 - c1 e) e rest := by
+    intro f rest hf
+    have := need_ge e
+    obtain ⟨k, rfl⟩ : ∃ k, f = k + 1 := ⟨f - 1, by omega⟩
+    simp only [parseMul, hun k rest (by omega), hc1]
+    simp
+  refine ⟨hm, ?_⟩
+  intro f rest hs hf
+  have := need_ge e
+  have hc := c1_le e
+  obtain ⟨k, rfl⟩ : ∃ k, f = k + 1 := ⟨f - 1, by omega⟩
+  have hmd : parseMul k (pr e ++ rest) = some (e, rest) := by
+    rw [hm k rest (by omega)]
+    obtain ⟨j, hj⟩ : ∃ j, k - 1 - c1 e = j + 1 := ⟨k - 1 - c1 e - 1, by omega⟩
+    rw [hj]; exact mulLoop_stop j e rest hs
+  simp only [parseAdd, hmd, hc0]
+  simp
+
+theorem good (e : E) (hw : WF e) : Good e := by
+  induction e with
+  | num n =>
+    have hun : ∀ f rest, need (.num n) ≤ f + 2 → parseUn f (pr (.num n) ++ rest) = some (.num n, rest) := by
+      intro f rest hf
+      obtain ⟨k, rfl⟩ : ∃ k, f = k + 2 := ⟨f - 2, by simp [need] at hf; omega⟩
+      simp [pr, parseUn, parseAtom]
+    obtain ⟨hm, ha⟩ := lift_un (e := .num n) (by simp [E.level]) rfl rfl hun
+    refine ⟨?_, fun _ => hun, fun _ => hm, ha⟩
+    intro _ f rest hf
+    obtain ⟨k, rfl⟩ : ∃ k, f = k + 1 := ⟨f - 1, by simp [need] at hf; omega⟩
+    simp [pr, parseAtom]
+  | neg e ih =>
+    obtain ⟨hwe, hl⟩ := hw
+    have g := ih hwe
+    have hun : ∀ f rest, need (.neg e) ≤ f + 2 → parseUn f (pr (.neg e) ++ rest) = some (.neg e, rest) := by
+      intro f rest hf
+      have := need_ge e
+      obtain ⟨k, rfl⟩ : ∃ k, f = k + 1 := ⟨f - 1, by simp [need] at hf; omega⟩
+      simp only [pr, List.cons_append, parseUn, g.un hl k rest (by simp [need] at hf; omega)]
+      rfl
+    obtain ⟨hm, ha⟩ := lift_un (e := .neg e) (by simp [E.level]) rfl rfl hun
+    exact ⟨fun h => by simp [E.level] at h, fun _ => hun, fun _ => hm, ha⟩
+  | paren e ih =>
+    have g := ih hw
+    have hat : ∀ f rest, need (.paren e) ≤ f + 3 → parseAtom f (pr (.paren e) ++ rest) = some (.paren e, rest) := by
+      intro f rest hf
+      have := need_ge e
+      obtain ⟨k, rfl⟩ : ∃ k, f = k + 1 := ⟨f - 1, by simp [need] at hf; omega⟩
+      have hp := parseAdd_done g k (.rp :: rest) (stop0_rp rest) (by simp [need] at hf; omega)
+      simp only [pr, List.cons_append, List.append_assoc, List.singleton_append, List.nil_append] at hp ⊢
+      simp only [parseAtom, hp]
+    have hun : ∀ f rest, need (.paren e) ≤ f + 2 → parseUn f (pr (.paren e) ++ rest) = some (.paren e, rest) := by
+      intro f rest hf
+      have := need_ge e
+      obtain ⟨k, rfl⟩ : ∃ k, f = k + 1 := ⟨f - 1, by simp [need] at hf; omega⟩
+      have := hat k rest (by omega)
+      simp only [pr, List.cons_append] at this ⊢
+      simp only [parseUn, this]
+    obtain ⟨hm, ha⟩ := lift_un (e := .paren e) (by simp [E.level]) rfl rfl hun
+    exact ⟨fun _ => hat, fun _ => hun, fun _ => hm, ha⟩
+  | bin o l r ihl ihr =>
+    obtain ⟨hwl, hwr, hll, hlr⟩ := hw
+    have gl := ihl hwl
+    have gr := ihr hwr
+    have nl := need_ge l
+    have nr := need_ge r
+    have cl1 := c1_le l
+    have cl0 := c0_le l
+    have cr1 := c1_le r
+    have hmulB : 1 ≤ (E.bin o l r).level → ∀ f rest, need (.bin o l r) ≤ f + 1 →
+        parseMul f (pr (.bin o l r) ++ rest) = mulLoop (f - 1 - c1 (.bin o l r)) (.bin o l r) rest := by
+      intro hlev f rest hf
+      have hp : o.prec = 1 := by cases o <;> simp_all [E.level, Op.prec]
+      have hrl : 2 ≤ r.level := by omega
+      have hl1 : 1 ≤ l.level := by omega
+      simp only [pr, List.append_assoc, List.cons_append]
+      rw [gl.mul hl1 f (.op o :: (pr r ++ rest)) (by simp [need] at hf; omega)]
+      obtain ⟨j, hj⟩ : ∃ j, f - 1 - c1 l = j + 1 := ⟨f - 1 - c1 l - 1, by simp [need] at hf; omega⟩
+      have hur := gr.un hrl j rest (by simp [need] at hf; omega)
+      have htarget : f - 1 - c1 (.bin o l r) = j := by simp only [c1, hp, ↓reduceIte]; omega
+      rw [hj, htarget]
+      cases o with
+      | mul => simp only [mulLoop, hur]
+      | div => simp only [mulLoop, hur]
+      | add => simp [Op.prec] at hp
+      | sub => simp [Op.prec] at hp
+    refine ⟨fun h => by cases o <;> simp [E.level, Op.prec] at h, fun h => by cases o <;> simp [E.level, Op.prec] at h, hmulB, ?_⟩
+    · -- additive chain (or a multiplicative expression seen from the additive parser)
+      intro f rest hs hf
+      by_cases hp : o.prec = 0
+      · have hr1 : 1 ≤ r.level := by omega
+        simp only [pr, List.append_assoc, List.cons_append]
+        rw [gl.add f (.op o :: (pr r ++ rest)) (stop1_addop o hp _) (by simp [need] at hf; omega)]
+        obtain ⟨j, hj⟩ : ∃ j, f - 1 - c0 l = j + 1 := ⟨f - 1 - c0 l - 1, by simp [need] at hf; omega⟩
+        have hmr := parseMul_done gr hr1 j rest hs (by simp [need] at hf; omega)
+        have htarget : f - 1 - c0 (.bin o l r) = j := by simp only [c0, hp, ↓reduceIte]; omega
+        rw [hj, htarget]
+        cases o with
+        | add => simp only [addLoop, hmr]
+        | sub => simp only [addLoop, hmr]
+        | mul => simp [Op.prec] at hp
+        | div => simp [Op.prec] at hp
+      · -- o is multiplicative: one operand of the additive parser
+        have hp1 : o.prec = 1 := by cases o <;> simp_all [Op.prec]
+        have hlev : 1 ≤ (E.bin o l r).level := by simp [E.level, hp1]
+        have hc0 : c0 (.bin o l r) = 0 := by simp [c0, hp]
+        have hcb := c1_le (.bin o l r)
+        obtain ⟨k, rfl⟩ : ∃ k, f = k + 1 := ⟨f - 1, by omega⟩
+        have hmd : parseMul k (pr (.bin o l r) ++ rest) = some (.bin o l r, rest) := by
+          rw [hmulB hlev k rest (by omega)]
+          obtain ⟨j, hj⟩ : ∃ j, k - 1 - c1 (.bin o l r) = j + 1 := ⟨k - 1 - c1 (.bin o l r) - 1, by omega⟩
+          rw [hj]; exact mulLoop_stop j _ rest hs
+        simp only [parseAdd, hmd, hc0]
+        simp
+
+
+theorem need_le (e : E) : need e ≤ 6 * (pr e).length := by
+  induction e with
+  | num n => simp [need, pr]
+  | neg e ih => simp only [need, pr, List.length_cons]; omega
+  | paren e ih => simp only [need, pr, List.length_cons, List.length_append, List.length_nil]; omega
+  | bin o l r ihl ihr => simp only [need, pr, List.length_cons, List.length_append]; omega
+
+/-- PRINT THEN PARSE IS THE IDENTITY on every well-formed tree, whatever its depth and width -/
+theorem parse_print (e : E) (hw : WF e) : parse (pr e) = some e := by
+  have h := parseAdd_done (good e hw) (6 * (pr e).length + 6) [] ⟨fun _ => ⟨by simp, by simp⟩, fun _ => ⟨by simp, by simp⟩⟩
+    (by have := need_le e; omega)
+  simp only [List.append_nil] at h
+  simp [parse, h]
+
+/-- what the parser builds is well-formed -/
+structure Built (f : Nat) : Prop where
+  atom : ∀ ts e r, parseAtom f ts = some (e, r) → WF e ∧ e.level = 3
+  un : ∀ ts e r, parseUn f ts = some (e, r) → WF e ∧ 2 ≤ e.level
+  mulL : ∀ acc ts e r, mulLoop f acc ts = some (e, r) → WF acc → 1 ≤ acc.level → WF e ∧ 1 ≤ e.level
+  mul : ∀ ts e r, parseMul f ts = some (e, r) → WF e ∧ 1 ≤ e.level
+  addL : ∀ acc ts e r, addLoop f acc ts = some (e, r) → WF acc → WF e
+  add : ∀ ts e r, parseAdd f ts = some (e, r) → WF e
+
+theorem built : ∀ f, Built f := by
+  intro f
+  induction f with
+  | zero =>
+    exact ⟨fun _ _ _ h => by simp [parseAtom] at h, fun _ _ _ h => by simp [parseUn] at h, fun _ _ _ _ h => by simp [mulLoop] at h,
+           fun _ _ _ h => by simp [parseMul] at h, fun _ _ _ _ h => by simp [addLoop] at h, fun _ _ _ h => by simp [parseAdd] at h⟩
+  | succ f ih =>
+    refine ⟨?_, ?_, ?_, ?_, ?_, ?_⟩
+    · intro ts e r h
+      match ts with
+      | [] => simp [parseAtom] at h
+      | .num n :: t => simp [parseAtom] at h; obtain ⟨rfl, _⟩ := h; exact ⟨trivial, rfl⟩
+      | .lp :: t =>
+        simp only [parseAtom] at h
+        split at h
+        · rename_i e' r2 heq
+          cases h
+          exact ⟨ih.add t e' (.rp :: r) heq, rfl⟩
+        · cases h
+      | .rp :: t => simp [parseAtom] at h
+      | .op o :: t => simp [parseAtom] at h
+    · intro ts e r h
+      match ts with
+      | .op .sub :: t =>
+        simp only [parseUn] at h
+        cases hp : parseUn f t with
+        | none => simp [hp] at h
+        | some p =>
+          simp [hp] at h
+          obtain ⟨rfl, _⟩ := h
+          have := ih.un t p.1 p.2 (by simp [hp])
+          exact ⟨⟨this.1, this.2⟩, by simp [E.level]⟩
+      | [] => simp only [parseUn] at h; have := ih.atom _ _ _ h; exact ⟨this.1, by omega⟩
+      | .num n :: t => simp only [parseUn] at h; have := ih.atom _ _ _ h; exact ⟨this.1, by omega⟩
+      | .lp :: t => simp only [parseUn] at h; have := ih.atom _ _ _ h; exact ⟨this.1, by omega⟩
+      | .rp :: t => simp only [parseUn] at h; have := ih.atom _ _ _ h; exact ⟨this.1, by omega⟩
+      | .op .add :: t => simp only [parseUn] at h; have := ih.atom _ _ _ h; exact ⟨this.1, by omega⟩
+      | .op .mul :: t => simp only [parseUn] at h; have := ih.atom _ _ _ h; exact ⟨this.1, by omega⟩
+      | .op .div :: t => simp only [parseUn] at h; have := ih.atom _ _ _ h; exact ⟨this.1, by omega⟩
+    · intro acc ts e r h hwa hla
+      have step : ∀ (o : Op), o.prec = 1 → ∀ t, (match parseUn f t with | some (u, r2) => mulLoop f (.bin o acc u) r2 | none => none) = some (e, r) →
+          WF e ∧ 1 ≤ e.level := by
+        intro o ho t h
+        cases hp : parseUn f t with
+        | none => simp [hp] at h
+        | some p =>
+          obtain ⟨u, r2⟩ := p
+          simp only [hp] at h
+          have hu := ih.un t u r2 hp
+          exact ih.mulL _ _ _ _ h ⟨hwa, hu.1, by omega, by omega⟩ (by simp [E.level, ho])
+      match ts with
+      | .op .mul :: t => simp only [mulLoop] at h; exact step .mul rfl t h
+      | .op .div :: t => simp only [mulLoop] at h; exact step .div rfl t h
+      | [] => simp [mulLoop] at h; obtain ⟨rfl, _⟩ := h; exact ⟨hwa, hla⟩
+      | .num n :: t => simp [mulLoop] at h; obtain ⟨rfl, _⟩ := h; exact ⟨hwa, hla⟩
+      | .lp :: t => simp [mulLoop] at h; obtain ⟨rfl, _⟩ := h; exact ⟨hwa, hla⟩
+      | .rp :: t => simp [mulLoop] at h; obtain ⟨rfl, _⟩ := h; exact ⟨hwa, hla⟩
+      | .op .add :: t => simp [mulLoop] at h; obtain ⟨rfl, _⟩ := h; exact ⟨hwa, hla⟩
+      | .op .sub :: t => simp [mulLoop] at h; obtain ⟨rfl, _⟩ := h; exact ⟨hwa, hla⟩
+    · intro ts e r h
+      simp only [parseMul] at h
+      cases hp : parseUn f ts with
+      | none => simp [hp] at h
+      | some p =>
+        obtain ⟨u, r2⟩ := p
+        simp only [hp] at h
+        have hu := ih.un ts u r2 hp
+        exact ih.mulL _ _ _ _ h hu.1 (by omega)
+    · intro acc ts e r h hwa
+      have step : ∀ (o : Op), o.prec = 0 → ∀ t, (match parseMul f t with | some (m, r2) => addLoop f (.bin o acc m) r2 | none => none) = some (e, r) → WF e := by
+        intro o ho t h
+        cases hp : parseMul f t with
+        | none => simp [hp] at h
+        | some p =>
+          obtain ⟨m, r2⟩ := p
+          simp only [hp] at h
+          have hm := ih.mul t m r2 hp
+          exact ih.addL _ _ _ _ h ⟨hwa, hm.1, by omega, by omega⟩
+      match ts with
+      | .op .add :: t => simp only [addLoop] at h; exact step .add rfl t h
+      | .op .sub :: t => simp only [addLoop] at h; exact step .sub rfl t h
+      | [] => simp [addLoop] at h; obtain ⟨rfl, _⟩ := h; exact hwa
+      | .num n :: t => simp [addLoop] at h; obtain ⟨rfl, _⟩ := h; exact hwa
+      | .lp :: t => simp [addLoop] at h; obtain ⟨rfl, _⟩ := h; exact hwa
+      | .rp :: t => simp [addLoop] at h; obtain ⟨rfl, _⟩ := h; exact hwa
+      | .op .mul :: t => simp [addLoop] at h; obtain ⟨rfl, _⟩ := h; exact hwa
+      | .op .div :: t => simp [addLoop] at h; obtain ⟨rfl, _⟩ := h; exact hwa
+    · intro ts e r h
+      simp only [parseAdd] at h
+      cases hp : parseMul f ts with
+      | none => simp [hp] at h
+      | some p =>
+        obtain ⟨m, r2⟩ := p
+        simp only [hp] at h
+        exact ih.addL _ _ _ _ h (ih.mul ts m r2 hp).1
+
+theorem parse_wf (ts : List Tok) (e : E) (h : parse ts = some e) : WF e := by
+  unfold parse at h
+  split at h
+  · rename_i e' heq; cases h; exact (built _).add _ _ _ heq
+  · cases h
+
+/-- PARSE ∘ PRINT IS IDEMPOTENT FROM THE FIRST PARSE ON: whatever token sequence was accepted, printing the tree and
+    parsing again gives the same tree (so printing again gives the same tokens) -/
+theorem parse_print_parse (ts : List Tok) (e : E) (h : parse ts = some e) : parse (pr e) = some e :=
+  parse_print e (parse_wf ts e h)
+
+-- the hypothesis of parse_print is needed: a tree the parser cannot build does not come back
+example : parse (pr (.bin .mul (.bin .add (.num 1) (.num 2)) (.num 3))) = some (.bin .add (.num 1) (.bin .mul (.num 2) (.num 3))) := by decide
+example : parse (pr (.bin .mul (.paren (.bin .add (.num 1) (.num 2))) (.num 3))) = some (.bin .mul (.paren (.bin .add (.num 1) (.num 2))) (.num 3)) := by decide
+
+end BoaVerif.C19.Prec
